@@ -19,7 +19,9 @@ public:
     static edge_set& edges(cell& c) { return c.edge_set_; }
     static vec3& pos(node& n) { return n.pos_; }
     static vec3& force(node& n) { return n.force_; }
+#if CONTACT_MODEL_INDEX == 1 || CONTACT_MODEL_INDEX == 2
     static vec3& node_normal(node& n) { return n.normal_; }
+#endif
 #if DYNAMIC_MODEL_INDEX == 0
     static vec3& momentum(node& n) { return n.momentum_; }
 #endif
